@@ -316,7 +316,7 @@ func (e *c04Eng) snapshot(i int, n *node.Node, op c04Op) {
 		s.Do(fmt.Sprintf("op%d snap %s %d %s", i, n.ID, op.N, op.F), 120*time.Second, func() { err = n.Store.Snapshot(uint64(op.N)) })
 		e.disarm()
 	}
-	logf(c, "op%d snapshot %s f=%s: %v", i, n.ID, op.F, errClass(err))
+	logf(c, "op%d snapshot %s f=%s: %v", i, n.ID, op.F, stErrClass(err))
 	if err == nil && op.F != "skip" {
 		c.Probe("snapshot_ok")
 	}
@@ -350,11 +350,11 @@ func (e *c04Eng) snapshot(i int, n *node.Node, op c04Op) {
 	}
 }
 
-func errClass(err error) string {
+func stErrClass(err error) string {
 	if err == nil {
 		return "<nil>"
 	}
-	return trunc(err.Error(), 100)
+	return stTrunc(err.Error(), 100)
 }
 
 func containsStr(s, sub string) bool { return len(sub) > 0 && bytes.Contains([]byte(s), []byte(sub)) }
@@ -367,7 +367,7 @@ func (e *c04Eng) restart(n *node.Node, rm bool, why string) {
 	sk := storeStat("num_restores_start_skipped")
 	crcBad := false
 	if err := startNode(s, n, &crcBad); err != nil {
-		violate(c, "restart-failed", "%s does not open after %s: %v", n.ID, why, err)
+		stViolate(c, "restart-failed", "%s does not open after %s: %v", n.ID, why, err)
 		return
 	}
 	if storeStat("num_restores_start_skipped") > sk {
@@ -378,12 +378,12 @@ func (e *c04Eng) restart(n *node.Node, rm bool, why string) {
 	e.restores = storeStat("num_restores")
 	if n == e.n1 {
 		if err := settle(s, n); err != nil {
-			violate(c, "restart-no-leader", "%s not ready after %s: %v", n.ID, why, err)
+			stViolate(c, "restart-no-leader", "%s not ready after %s: %v", n.ID, why, err)
 			return
 		}
 	}
 	if crcBad {
-		violate(c, "fingerprint-crc-mismatch", "%s: clean-snapshot fingerprint matched mtime and size but not the CRC after %s", n.ID, why)
+		stViolate(c, "fingerprint-crc-mismatch", "%s: clean-snapshot fingerprint matched mtime and size but not the CRC after %s", n.ID, why)
 	}
 }
 
@@ -395,7 +395,7 @@ func (e *c04Eng) doOp(i int, op c04Op) {
 		var err error
 		s.Do(fmt.Sprintf("op%d w n=%d", i, len(stmts)), 120*time.Second, func() { err = execStmts(n, stmts, false) })
 		if err != nil {
-			logf(c, "op%d write: %v", i, errClass(err))
+			logf(c, "op%d write: %v", i, stErrClass(err))
 			c.Probe("write_error")
 		} else {
 			c.Probe("write_batches")
@@ -413,7 +413,7 @@ func (e *c04Eng) doOp(i int, op c04Op) {
 		var a, b int
 		var err error
 		s.Do(fmt.Sprintf("op%d reap", i), 120*time.Second, func() { a, b, err = n.Store.Reap() })
-		logf(c, "op%d reap: %d %d %v", i, a, b, errClass(err))
+		logf(c, "op%d reap: %d %d %v", i, a, b, stErrClass(err))
 		if err == nil && a > 0 {
 			c.Probe("reaped")
 		}
@@ -436,7 +436,7 @@ func (e *c04Eng) doOp(i int, op c04Op) {
 				_, err = n.Store.ReadFrom(bytes.NewReader(data))
 			}
 		})
-		logf(c, "op%d %s: %v", i, op.K, errClass(err))
+		logf(c, "op%d %s: %v", i, op.K, stErrClass(err))
 		if err == nil {
 			c.Probe(op.K + "_ok")
 			if staged > 0 {
@@ -505,7 +505,7 @@ func (e *c04Eng) check(i int, op c04Op) {
 	}
 	live, err := s.DumpNode(n)
 	if err != nil {
-		violate(c, "live-dump-failed", "after op %d (%s): live database unreadable: %v", i, op.K, err)
+		stViolate(c, "live-dump-failed", "after op %d (%s): live database unreadable: %v", i, op.K, err)
 		return
 	}
 	nsnap, staged := snapDirs(n.Dir)
@@ -522,7 +522,7 @@ func (e *c04Eng) check(i int, op c04Op) {
 	defer func() { e.h.armed = true }()
 	rest0 := storeStat("num_restores")
 	if err := startNode(s, cn, nil); err != nil {
-		violate(c, "rebuild-failed", "after op %d (%s): a node started from the image of the directory (snapshots=%d staged=%d) does not open: %v", i, op.K, nsnap, staged, err)
+		stViolate(c, "rebuild-failed", "after op %d (%s): a node started from the image of the directory (snapshots=%d staged=%d) does not open: %v", i, op.K, nsnap, staged, err)
 		return
 	}
 	stopped := false
@@ -546,7 +546,7 @@ func (e *c04Eng) check(i int, op c04Op) {
 	}
 	defer stopClone()
 	if err := settle(s, cn); err != nil {
-		violate(c, "rebuild-no-leader", "after op %d (%s): node rebuilt from the image is not ready: %v", i, op.K, err)
+		stViolate(c, "rebuild-no-leader", "after op %d (%s): node rebuilt from the image is not ready: %v", i, op.K, err)
 		return
 	}
 	if storeStat("num_restores") > rest0 {
@@ -554,13 +554,13 @@ func (e *c04Eng) check(i int, op c04Op) {
 	}
 	cd, err := s.DumpNode(cn)
 	if err != nil {
-		violate(c, "rebuild-dump-failed", "after op %d (%s): rebuilt database unreadable: %v", i, op.K, err)
+		stViolate(c, "rebuild-dump-failed", "after op %d (%s): rebuilt database unreadable: %v", i, op.K, err)
 		return
 	}
 	e.checks++
 	c.Probe("rebuild_checks")
 	if cd != live {
-		violate(c, "rebuild-differs", "after op %d (%s, snapshots=%d staged-wals=%d): newest snapshot + log rebuilds a database different from the live one: %s", i, op.K+"/"+op.F, nsnap, staged, sim.FirstDiff(cd, live))
+		stViolate(c, "rebuild-differs", "after op %d (%s, snapshots=%d staged-wals=%d): newest snapshot + log rebuilds a database different from the live one: %s", i, op.K+"/"+op.F, nsnap, staged, sim.FirstDiff(cd, live))
 		return
 	}
 	c.Sig(fmt.Sprintf("%d/%d/%d", nsnap, staged, len(live)))
@@ -584,12 +584,12 @@ func (e *c04Eng) check(i int, op c04Op) {
 		}
 		fd, err := s.DumpNode(e.n2)
 		if err != nil {
-			violate(c, "follower-dump-failed", "after op %d (%s): follower database unreadable: %v", i, op.K, err)
+			stViolate(c, "follower-dump-failed", "after op %d (%s): follower database unreadable: %v", i, op.K, err)
 			return
 		}
 		c.Probe("follower_checks")
 		if fd != live2 {
-			violate(c, "follower-differs", "after op %d (%s): follower at the leader's applied index has a different database: %s", i, op.K+"/"+op.F, sim.FirstDiff(fd, live2))
+			stViolate(c, "follower-differs", "after op %d (%s): follower at the leader's applied index has a different database: %s", i, op.K+"/"+op.F, sim.FirstDiff(fd, live2))
 		}
 	}
 }
